@@ -1,4 +1,5 @@
 mod common;
+mod anim;
 mod tl;
 mod ts;
 use serde_json::Value;
@@ -32,6 +33,13 @@ fn main() {
             let scales: Vec<i64> = args.get(3).map(|s| s.split(',').map(|x| x.parse().unwrap()).collect()).unwrap_or(vec![-3, 0, 6]);
             let mut tally = tl::Tally::new();
             for (i, l) in lines.iter().enumerate() { tl::replay_tl_line(&mut tally, i + 1, l, &scales); }
+            println!("{}", tally.report());
+        }
+        "replay-anim" => {
+            let lines = read_lines(&args[2]);
+            let scales: Vec<i64> = args.get(3).map(|s| s.split(',').map(|x| x.parse().unwrap()).collect()).unwrap_or(vec![-3, 0, 3]);
+            let mut tally = tl::Tally::new();
+            for (i, l) in lines.iter().enumerate() { anim::replay_anim_line(&mut tally, i + 1, l, &scales); }
             println!("{}", tally.report());
         }
         "drive-ts" => {
